@@ -90,11 +90,15 @@ def extract(units, repo=None, jobs=16, tolerate=()):
     key = _tree_hash(repo)
     outdir = os.path.join(CACHE, key)
     os.makedirs(outdir, exist_ok=True)
-    # keep the cache small: drop other trees' entries (oldest first) beyond 6
+    # keep the cache small: drop other trees' entries (oldest first) beyond 40 (32 MB each) -- but never one that was used in the last
+    # hour: several checks may run at once on different trees (the thorough tier's workers, checks started in parallel)
     try:
+        os.utime(outdir, None)
+        now = time.time()
         others = sorted((d for d in os.listdir(CACHE) if d != key), key=lambda d: os.path.getmtime(os.path.join(CACHE, d)))
-        for d in others[:-5] if len(others) > 5 else []:
-            subprocess.run(["rm", "-rf", os.path.join(CACHE, d)])
+        for d in others[:-40] if len(others) > 40 else []:
+            if now - os.path.getmtime(os.path.join(CACHE, d)) > 3600:
+                subprocess.run(["rm", "-rf", os.path.join(CACHE, d)])
     except OSError:
         pass
     res = []
